@@ -16,6 +16,7 @@
 
 #include <tao/pegtl.hpp>
 #include <tao/pegtl/contrib/input_with_depth.hpp>
+#include <tao/pegtl/contrib/integer.hpp>
 #include <tao/pegtl/contrib/limit_bytes.hpp>
 #include <tao/pegtl/contrib/limit_depth.hpp>
 
